@@ -50,20 +50,34 @@ Proof.
   intros Hb Hz E. apply Hz. subst rb. apply (proj2 (canon_0 t)).
 Qed.
 
-Lemma divs_sound t ra rb v : signed t = true -> canon t ra -> canon t rb ->
-  arith Div t (denote t ra) (denote t rb) = Some v ->
-  sem_bop (tcls t) Odivs ra rb = Some (encode t v) /\ tmin t <= v <= tmax t.
+Lemma no_machine_trap t ra rb : signed t = true -> canon t ra -> canon t rb ->
+  div_traps t (denote t ra) (denote t rb) = false ->
+  (denote t ra =? - (cmod (tcls t) / 2)) && (denote t rb =? -1) = false.
 Proof.
-  intros Hs Ha Hb Hv. destruct (arith_div_inv Div t _ _ _ (or_introl eq_refl) Hv) as [Hz Hm].
-  destruct (quot_rem_range t _ _ (canon_in_range t ra) (canon_in_range t rb) Hz Hm) as (Hd & _ & Hq & _).
-  rewrite Hd in Hv. inversion Hv; subst v. split; [|exact Hq].
-  unfold sem_bop. cbv zeta. rewrite (canon_signed t ra Hs Ha), (canon_signed t rb Hs Hb).
-  destruct (Z.eqb_spec rb 0) as [E|_]; [exfalso; exact (rb_nonzero t rb Hb Hz E)|].
+  intros Hs Ha Hb Ht.
   destruct ((denote t ra =? - (cmod (tcls t) / 2)) && (denote t rb =? -1)) eqn:E; [|reflexivity].
   exfalso. apply andb_prop in E as [E1 E2]. apply Z.eqb_eq in E1, E2.
   destruct (subword t) eqn:Hw.
   - pose proof (range_sub_signed t Hw) as [Hlt _]. pose proof (canon_in_range t ra). lia.
-  - apply Hm. split; [exact Hs|]. split; [|exact E2]. rewrite (range_full_signed t Hs Hw). exact E1.
+  - unfold div_traps in Ht. rewrite Hs, (full_bits32 t Hw), E2, E1, <- (range_full_signed t Hs Hw), Z.eqb_refl in Ht.
+    discriminate.
+Qed.
+
+(* signed division: the machine quotient is congruent to the mathematical one; it is canonical at full width, at
+   8/16 bits it is not (MIN / -1) and must be normalised *)
+Lemma divs_sound t ra rb v : signed t = true -> canon t ra -> canon t rb ->
+  arith Div t (denote t ra) (denote t rb) = Some v ->
+  exists x, sem_bop (tcls t) Odivs ra rb = Some x /\ 0 <= x < cmod (tcls t) /\ wrap t x = v /\
+            tmin t <= v <= tmax t /\ (subword t = false -> canon t x).
+Proof.
+  intros Hs Ha Hb Hv. destruct (arith_div_inv t _ _ _ Hv) as (Hz & Ht & ->).
+  unfold sem_bop. cbv zeta. rewrite (canon_signed t ra Hs Ha), (canon_signed t rb Hs Hb).
+  destruct (Z.eqb_spec rb 0) as [E|_]; [exfalso; exact (rb_nonzero t rb Hb Hz E)|].
+  rewrite (no_machine_trap t ra rb Hs Ha Hb Ht).
+  eexists. split; [reflexivity|].
+  assert (Hx : 0 <= Z.quot (denote t ra) (denote t rb) mod cmod (tcls t) < cmod (tcls t)) by (apply Z.mod_pos_bound, cmod_pos).
+  split; [exact Hx|]. split; [|split; [apply wrap_in_range|intros Hw; apply canon_full; assumption]].
+  apply wrap_eqm. apply eqm_mod; [apply tmod_pos|apply cmod_pos|apply tmod_divides].
 Qed.
 
 Lemma rems_sound t ra rb v : signed t = true -> canon t ra -> canon t rb ->
@@ -71,26 +85,22 @@ Lemma rems_sound t ra rb v : signed t = true -> canon t ra -> canon t rb ->
   sem_bop (tcls t) Orems ra rb = Some (encode t v) /\ sem_bop (tcls t) Oremsw ra rb = Some (encode t v)
   /\ tmin t <= v <= tmax t.
 Proof.
-  intros Hs Ha Hb Hv. destruct (arith_div_inv Mod t _ _ _ (or_intror eq_refl) Hv) as [Hz Hm].
-  destruct (quot_rem_range t _ _ (canon_in_range t ra) (canon_in_range t rb) Hz Hm) as (_ & Hd & _ & Hq).
-  rewrite Hd in Hv. inversion Hv; subst v.
+  intros Hs Ha Hb Hv. destruct (arith_mod_inv t _ _ _ Hv) as (Hz & Ht & ->).
+  pose proof (rem_range t _ _ (canon_in_range t ra) (canon_in_range t rb) Hz) as Hq.
+  rewrite (wrap_id t _ Hq).
   unfold sem_bop. cbv zeta. rewrite (canon_signed t ra Hs Ha), (canon_signed t rb Hs Hb).
   destruct (Z.eqb_spec rb 0) as [E|_]; [exfalso; exact (rb_nonzero t rb Hb Hz E)|].
-  split; [|split; [reflexivity|exact Hq]].
-  destruct ((denote t ra =? - (cmod (tcls t) / 2)) && (denote t rb =? -1)) eqn:E; [|reflexivity].
-  exfalso. apply andb_prop in E as [E1 E2]. apply Z.eqb_eq in E1, E2.
-  destruct (subword t) eqn:Hw.
-  - pose proof (range_sub_signed t Hw) as [Hlt _]. pose proof (canon_in_range t ra). lia.
-  - apply Hm. split; [exact Hs|]. split; [|exact E2]. rewrite (range_full_signed t Hs Hw). exact E1.
+  rewrite (no_machine_trap t ra rb Hs Ha Hb Ht).
+  split; [reflexivity|split; [reflexivity|exact Hq]].
 Qed.
 
 Lemma divu_sound t ra rb v : signed t = false -> canon t ra -> canon t rb ->
   arith Div t (denote t ra) (denote t rb) = Some v ->
   sem_bop (tcls t) Odivu ra rb = Some (encode t v) /\ tmin t <= v <= tmax t.
 Proof.
-  intros Hs Ha Hb Hv. destruct (arith_div_inv Div t _ _ _ (or_introl eq_refl) Hv) as [Hz Hm].
-  destruct (quot_rem_range t _ _ (canon_in_range t ra) (canon_in_range t rb) Hz Hm) as (Hd & _ & Hq & _).
-  rewrite Hd in Hv. inversion Hv; subst v. split; [|exact Hq].
+  intros Hs Ha Hb Hv. destruct (arith_div_inv t _ _ _ Hv) as (Hz & Ht & ->).
+  pose proof (quot_range_u t _ _ Hs (canon_in_range t ra) (canon_in_range t rb) Hz) as Hq.
+  rewrite (wrap_id t _ Hq). split; [|exact Hq].
   pose proof (range_unsigned t Hs) as [H0 HM]. pose proof (canon_in_range t ra). pose proof (canon_in_range t rb).
   rewrite <- (canon_unsigned t ra Hs Ha) in *. rewrite <- (canon_unsigned t rb Hs Hb) in *.
   unfold sem_bop. cbv zeta. destruct (Z.eqb_spec rb 0) as [E|_]; [contradiction|].
@@ -102,9 +112,9 @@ Lemma remu_sound t ra rb v : signed t = false -> canon t ra -> canon t rb ->
   arith Mod t (denote t ra) (denote t rb) = Some v ->
   sem_bop (tcls t) Oremu ra rb = Some (encode t v) /\ tmin t <= v <= tmax t.
 Proof.
-  intros Hs Ha Hb Hv. destruct (arith_div_inv Mod t _ _ _ (or_intror eq_refl) Hv) as [Hz Hm].
-  destruct (quot_rem_range t _ _ (canon_in_range t ra) (canon_in_range t rb) Hz Hm) as (_ & Hd & _ & Hq).
-  rewrite Hd in Hv. inversion Hv; subst v. split; [|exact Hq].
+  intros Hs Ha Hb Hv. destruct (arith_mod_inv t _ _ _ Hv) as (Hz & Ht & ->).
+  pose proof (rem_range t _ _ (canon_in_range t ra) (canon_in_range t rb) Hz) as Hq.
+  rewrite (wrap_id t _ Hq). split; [|exact Hq].
   pose proof (range_unsigned t Hs) as [H0 HM]. pose proof (canon_in_range t ra). pose proof (canon_in_range t rb).
   rewrite <- (canon_unsigned t ra Hs Ha) in *. rewrite <- (canon_unsigned t rb Hs Hb) in *.
   unfold sem_bop. cbv zeta. destruct (Z.eqb_spec rb 0) as [E|_]; [contradiction|].
@@ -182,8 +192,9 @@ Proof.
       unfold core_post. cbn [resty is_arith vcls must_norm]. split; [exact Hx|]. split; [exact Hw|].
       split; [apply wrap_in_range|exact Hc].
     + (* Div *) destruct Hin as [<-|[]]. rewrite meval_bin2. destruct (signed t) eqn:Hs.
-      * destruct (divs_sound t ra rb v Hs Ha Hb Hv) as [E Hr]. rewrite E. eexists. split; [reflexivity|].
-        apply post_of_encode; [reflexivity|exact Hr].
+      * destruct (divs_sound t ra rb v Hs Ha Hb Hv) as (x & E & Hx & Hw & Hr & Hc). rewrite E. exists x. split; [reflexivity|].
+        unfold core_post. cbn [resty is_arith vcls must_norm]. rewrite Hs, andb_true_r.
+        split; [exact Hx|]. split; [exact Hw|]. split; [exact Hr|exact Hc].
       * destruct (divu_sound t ra rb v Hs Ha Hb Hv) as [E Hr]. rewrite E. eexists. split; [reflexivity|].
         apply post_of_encode; [reflexivity|exact Hr].
     + (* Mod *) destruct (signed t) eqn:Hs.
